@@ -31,14 +31,14 @@ def obligations(tier):
     BELT_REAL = CORE + ['src/core/blob.c', B + 'belt_block.c', B + 'belt_lcl.c', 'src/crypto/bash/bash_f.c']
     BELT = CORE + ['src/core/blob.c', BLOCK, B + 'belt_lcl.c', B + 'belt_mac.c', B + 'belt_hash.c', B + 'belt_compr.c', B + 'belt_hmac.c', B + 'belt_dwp.c', B + 'belt_che.c',
                    B + 'belt_ctr.c', B + 'belt_kwp.c', B + 'belt_wbl.c', 'src/crypto/bash/bash_hash.c', 'src/math/pp/pp_mul.c', 'src/math/pp/pp_red.c', 'src/math/ww.c']
-    for t, lens, fn in (('MAC', (0, 7, 16, 20, 33), ['beltMACStart', 'beltMACStepA', 'beltMACStepV']),
-                        ('HMAC', (0, 33), ['beltHMACStart', 'beltHMACStepA', 'beltHMACStepV']),
-                        ('HASH', (0, 20, 33), ['beltHashStepH', 'beltHashStepV']),
-                        ('DWP', (0, 20), ['beltDWPStart', 'beltDWPStepI', 'beltDWPStepA', 'beltDWPStepV', 'beltDWPStepD', 'beltPolyMul']),
-                        ('CHE', (0, 20), ['beltCHEStart', 'beltCHEStepI', 'beltCHEStepA', 'beltCHEStepV', 'beltCHEStepD']),
-                        ('BASHV', (0, 40), ['bashHashStepH', 'bashHashStepV', 'bashF']),
+    for t, lens, fn in (('MAC', ((0, 20, 33) if tier == 'quick' else (0, 7, 16, 20, 33)), ['beltMACStart', 'beltMACStepA', 'beltMACStepV']),
+                        ('HMAC', ((33,) if tier == 'quick' else (0, 20, 33)), ['beltHMACStart', 'beltHMACStepA', 'beltHMACStepV']),
+                        ('HASH', ((20,) if tier == 'quick' else (0, 20, 33)), ['beltHashStepH', 'beltHashStepV']),
+                        ('DWP', ((20,) if tier == 'quick' else (0, 16, 20, 33)), ['beltDWPStart', 'beltDWPStepI', 'beltDWPStepA', 'beltDWPStepV', 'beltDWPStepD', 'beltPolyMul']),
+                        ('CHE', ((20,) if tier == 'quick' else (0, 16, 20, 33)), ['beltCHEStart', 'beltCHEStepI', 'beltCHEStepA', 'beltCHEStepV', 'beltCHEStepD']),
+                        ('BASHV', ((40,) if tier == 'quick' else (0, 20, 40)), ['bashHashStepH', 'bashHashStepV', 'bashF']),
                         ('BLOCK', (16,), ['beltKeyExpand2', 'beltBlockEncr', 'beltBlockDecr']),
-                        ('WBL', (32, 33, 40), ['beltWBLStart', 'beltWBLStepE', 'beltWBLStepD']),
+                        ('WBL', ((33,) if tier == 'quick' else (33, 40)), ['beltWBLStart', 'beltWBLStepE', 'beltWBLStepD']),
                         ('BASHF', (40,), ['bashF'])):
         names = {0: 'h_sec_0_16', 7: 'h_sec_7_24', 16: 'h_sec_16_32', 20: 'h_sec_20_32', 33: 'h_sec_33_32', 40: 'h_sec_40_32', 32: None}
         for L in lens:
